@@ -810,6 +810,12 @@ func applyWireFault(w http.ResponseWriter, rec *recorder, f *wireFault) {
 	case "measure":
 		*f.measure = int64(len(body))
 	case "damage":
+		if f.damage.Kind == "lie-length" {
+			w.Header().Set("Content-Length", strconv.FormatUint(f.damage.Val, 10))
+			w.WriteHeader(rec.code)
+			w.Write(body)
+			panic(http.ErrAbortHandler)
+		}
 		body = applyDamage(body, *f.damage)
 		if f.damage.Kind == "truncate" {
 			// a framing-level truncation would be caught by Content-Length;
